@@ -682,6 +682,27 @@ fn skeleton2(s: &str) -> String {
     }
     out
 }
+/// a Json default on a row written before the field existed (the row lacks the member): what a query returns for it
+fn json_default_cases(out: &mut Buf) {
+    let o = |l: Vec<(&str, Jv)>| Jv::Obj(l.into_iter().map(|(k, v)| (k.to_string(), v)).collect());
+    for (n, d) in [o(vec![("d", Jv::Arr(vec![Jv::Int(1)]))]), Jv::Arr(vec![Jv::Int(1), o(vec![("q", Jv::Int(2))])]), o(vec![])].iter().enumerate() {
+        let txt = d.canon_text();
+        let mut dm = DataModel::new();
+        dm.update("{ D { s: String } }").unwrap();
+        let conn = Connection::open_in_memory().unwrap();
+        prepare_connection(&conn).unwrap();
+        let mut w = World { dm, conn, s_short: String::new() };
+        if let Err(e) = mutate(&w, "mutate { D { s: \"old\" } }", Parameters::new()) { eprintln!("json default: {}", e); continue; }
+        let m2 = format!("{{ D {{ s: String, jd: Json default \"{}\" }} }}", txt.replace('\\', "\\\\").replace('"', "\\\""));
+        if let Err(e) = w.dm.update(&m2) { eprintln!("json default model refused: {} : {}", m2, e); continue; }
+        let (obs, note) = match jquery(&w, "query { D { s jd } }", Parameters::new()) {
+            Ok(v) => { let mut ob = vec![0]; let jd = v["D"][0]["jd"].clone(); enc_serde(&jd, &mut ob); (ob, jd.to_string()) }
+            Err(e) => (vec![1], e),
+        };
+        out.push(Case { kind: if n == 0 { "directed-json-default-old-row".into() } else { "json-default-old-row".into() }, coq: format!("CJsonDefault {} {}", gstr(&txt), d.coq()), obs,
+            meta: json!({"default": txt, "returned": note}) });
+    }
+}
 fn alias_search_cases(out: &mut Buf, rng: &mut Rng) {
     let m = SModel { fields: vec![
         SField { name: "name", ty: "String", coq_ty: "TStr", nullable: false, default: None },
@@ -787,6 +808,7 @@ fn main() {
     for b in [true, false] { bool_case(&mut out, &w, How::Param, b); bool_case(&mut out, &w, How::Literal, b); }
     let _ = &w.s_short;
     json_b64_cases(&mut out, &mut rng);
+    json_default_cases(&mut out);
     alias_search_cases(&mut out, &mut rng);
     statements(&mut out, &mut rng);
     eprintln!("c04: {} cases", out.n);
